@@ -47,6 +47,8 @@ EXPRS = [
     "200 if 1 == 1 != 2 else 0", "0 if 1 < 2 < 3 < 3 else 200", "round(199.6)" if False else "int(199.6) + 1",
 ]
 
+FRACTIONS = ["7 / 2", "1.5", "0.75 * 2", "11 / 4", "2.5", "10 / 4", "0.29 * 1000", "200.5", "199.999", "0.5", "0.4 + 0.2", "3 * 1.9"]
+
 # Expressions whose operators have C semantics when they are NOT folded (known C01 findings: floor
 # division / modulo of negatives, **, value-returning and/or); they are used at folding sites only.
 FOLD_ONLY = {"-7 // 2 + 204", "-7 % 3 + 198", "2 ** 3 * 25", "not 0 and 200"}
@@ -65,6 +67,10 @@ PATHS: Dict[str, List[str]] = {
     "aug_if": ["if a > 3:", "    v += 20"],
     "tuple_if": ["if a > 3:", "    v, q3 = 120, 1"],
     "helper": ["if a > 3:", "    setv()"],
+    "for_try": ["for i in range(n):", "    try:", "        v = v + 10", "    except:", "        q6 = 0"],
+    "if_try": ["if a > 3:", "    try:", "        v = 120", "    except:", "        q7 = 0"],
+    "try_except_arm": ["try:", "    q8 = 1", "except:", "    v = 1"],
+    "try_if": ["try:", "    if a > 3:", "        v = 120", "except:", "    q9 = 0"],
     "straight": ["v = 120"],
     "straight_aug": ["v += 20"],
     "straight_tuple": ["v, q4 = 120, 2"],
@@ -95,6 +101,14 @@ def gen_numeric(tier: str) -> Iterator[dict]:
             yield {"id": f"N:{site}:expr{ei}:setup", "space": "N", "src": common.script(HEAD + decls + render(expr), None, prologue=PRO), "runs": _runs(0)[:1], "group": f"{site}:setup:{eval(e)}", "value": e}
             if ei < 6 or tier == "thorough":
                 yield {"id": f"N:{site}:expr{ei}:loop", "space": "N", "src": common.script(HEAD + decls, render(expr), prologue=PRO), "runs": _runs(2)[:1], "group": f"{site}:loop:{eval(e)}", "value": e}
+        if site in ("sleep", "blink", "beep"):
+            # fractional durations: the folded value and the value a run-time variable carries into the same call
+            # must give the same wait (the firmware truncates towards zero in both cases)
+            for fi, e in enumerate(FRACTIONS):
+                expr = f"({e})"
+                yield {"id": f"N:{site}:frac{fi}:lit", "space": "N", "src": common.script(HEAD + decls + render(expr), None, prologue=PRO), "runs": _runs(0)[:1], "group": f"{site}:frac:{e}", "value": e}
+                yield {"id": f"N:{site}:frac{fi}:name", "space": "N", "src": common.script(HEAD + decls + [f"v = {e}"] + render("v"), None, prologue=PRO), "runs": _runs(0)[:1], "group": f"{site}:frac:{e}", "value": e}
+                yield {"id": f"N:{site}:frac{fi}:rt", "space": "N", "src": common.script(HEAD + decls + ["z0 = a - a", f"v = z0 + {expr}"] + render("v"), None, prologue=PRO), "runs": _runs(0)[:1], "group": f"{site}:frac:{e}", "value": e}
         # (c) a name bound once (to a literal and to each expression)
         for ei, e in enumerate(EXPRS if tier == "thorough" else EXPRS[:8]):
             if e in FOLD_ONLY:
@@ -129,13 +143,14 @@ def gen_numeric(tier: str) -> Iterator[dict]:
 CONT_SITES = {
     "len_str": ([], 'w = "abc"', ["mon.write(len(w))", "mon.write(len(w) * 2 + 1)", "if len(w) > 3:", '    mon.write("long")'], "str"),
     "len_list": ([], "w = [1, 0, 1, 0, 1]", ["mon.write(len(w))", "for i in range(len(w)):", "    mon.write(w[i])"], "list"),
+    "len_list_rt": ([], "w = [a, 0, 1, 0, 1]", ["mon.write(len(w))", "for i in range(len(w)):", "    mon.write(w[i])"], "list"),
     "flash": (["led = Led(9)"], "w = [1, 0, 1, 0, 1]", ["led.flash_pattern(w, 5)", "mon.write(led.get_brightness())"], "list"),
     "glyph": (["lcd = LCD(i2c_addr=39, cols=8, rows=2)"], "w = [1, 2, 3, 4, 5, 6, 7, 8]", ["lcd.glyph(1, w)", 'mon.write("#")'], "glyph"),
     "while_len": ([], 'w = "ab"', ["k2 = 0", "while len(w) < 5 and k2 < 9:", '    w = w + "x"', "    k2 += 1", "mon.write(k2)", "mon.write(w)"], "str"),
 }
 STR_MUTS = {"concat": ['w = w + "de"'], "aug": ['w += "z"'], "rebind": ['w = "q"'], "fstr": ['w = f"{w}!"']}
 LIST_MUTS = {"append": ["w.append(9)"], "remove": ["w.remove(1)"], "append_remove": ["w.append(9)", "w.remove(1)"], "remove_twice": ["w.remove(1)", "w.remove(1)"], "append_rt": ["w.append(a)"], "remove_rt": ["w.remove(a % 2)"],
-             "rebind": ["w = [7, 7]"]}
+             "rebind": ["w = [7, 7]"], "tuple_rebind": ["w, zq = [7, 7, 7, 7, 7, 7], 1"], "tuple_rebind_rt": ["w, zq = [a], [a, 5]"]}
 GLYPH_MUTS = {"swap": ["w.remove(8)", "w.append(9)"], "rebind": ["w = [8, 7, 6, 5, 4, 3, 2, 1]"], "dup": ["w.remove(1)", "w.append(1)"]}
 WRAPS = {
     "straight": lambda body: body,
@@ -143,6 +158,9 @@ WRAPS = {
     "else": lambda body: ["if a > 3:", "    q1 = 1", "else:"] + common.indent(body),
     "for": lambda body: ["for i in range(n):"] + common.indent(body),
     "elif_first": lambda body: ["if a > 3:"] + common.indent(body) + ["elif a > 1:", "    q2 = 1"],
+    "try": lambda body: ["try:"] + common.indent(body) + ["except:", "    q3 = 1"],
+    "for_try": lambda body: ["for i in range(n):", "    try:"] + common.indent(body, 2) + ["    except:", "        q4 = 1"],
+    "if_try": lambda body: ["if a > 3:", "    try:"] + common.indent(body, 2) + ["    except:", "        q5 = 1"],
     "helper": None,
 }
 
@@ -174,7 +192,8 @@ def gen_containers(tier: str) -> Iterator[dict]:
 def judge(case, tr, dev_runs, host_runs):
     from rmc.pipeline import default_judge
 
-    site = case["id"].split(":")[1] if case["id"].startswith("N:") else ""
+    cid = case["id"][1:] if case["id"].startswith("U") else case["id"]
+    site = cid.split(":")[1] if cid.startswith("N:") else ""
     if site in NO_HOST_SITES and tr.status == "ok" and dev_runs is not None:
         return ("match", "") if all(d.ok for d in dev_runs) else ("violation", "firmware did not run cleanly")
 
